@@ -96,6 +96,31 @@ def generate(thorough):
     base = ["class A { }", "class F { A a; F(A a) : a(a) { } }", "A a0 = new A();", "A a1 = new A();", "F f0 = new F(a0);", "F f1 = new F(a1);", "F v;"]
     for cons in ([], ["v.a == a0;"], ["v.a != a0;"], ["v.a == a1;", "v != f0;"]):
         add(" ".join(base + cons), {"kind": "objfield", "cons": cons})
+    # ---- constructor bodies and predicates declared in classes (own, inherited one and two levels up) ----
+    add("class A { real v; A(real k) : v(k) { v >= 5.0; } } A o = new A(1.0);", {"kind": "ctor", "shape": "body-constraint", "sat": False})
+    add("class A { real v; A(real k) : v(k) { v >= 5.0; } } A o = new A(7.0);", {"kind": "ctor", "shape": "body-constraint", "sat": True})
+    add("class A { A() { 1.0 <= 0.0; } } A o = new A();", {"kind": "ctor", "shape": "body-constant-false", "sat": False})
+    add("class A { real v; A() { v == 1.0; v == 2.0; } } A o = new A();", {"kind": "ctor", "shape": "body-contradiction", "sat": False})
+    pa = "class A { predicate P(real x) { x >= 8.0; } }"
+    for depth in (1, 2, 3):
+        # the class of the instance is `depth - 1` levels below the class that declares P
+        for kind in ("goal", "fact"):
+            low = 8 if kind == "goal" else None
+            chain_plain = {1: ("", "A"), 2: (" class B : A { }", "B"), 3: (" class B : A { } class C : B { }", "C")}[depth]
+            add("%s%s real a; %s o = new %s(); %s g = new o.P(x: a);" % (pa, chain_plain[0], chain_plain[1], chain_plain[1], kind),
+                {"kind": "ctor", "shape": "class-predicate:top-level:%s:depth%d" % (kind, depth), "sat": True, "lower": low})
+            ctor = {1: ("class A { predicate P(real x) { x >= 8.0; } A(real k) { %s g = new this.P(x: k); } }" % kind, "A"),
+                    2: (pa + " class B : A { B(real k) { %s g = new this.P(x: k); } }" % kind, "B"),
+                    3: (pa + " class B : A { } class C : B { C(real k) { %s g = new this.P(x: k); } }" % kind, "C")}[depth]
+            add("%s real a; %s o = new %s(a);" % (ctor[0], ctor[1], ctor[1]),
+                {"kind": "ctor", "shape": "class-predicate:constructor:%s:depth%d" % (kind, depth), "sat": True, "lower": low})
+            rule = {1: ("class A { predicate P(real x) { x >= 8.0; } predicate Q(real y) { %s g = new P(x: y); } }" % kind, "A"),
+                    2: (pa + " class B : A { predicate Q(real y) { %s g = new P(x: y); } }" % kind, "B"),
+                    3: (pa + " class B : A { } class C : B { predicate Q(real y) { %s g = new P(x: y); } }" % kind, "C")}[depth]
+            add("%s real a; %s o = new %s(); goal h = new o.Q(y: a);" % (rule[0], rule[1], rule[1]),
+                {"kind": "ctor", "shape": "class-predicate:rule:%s:depth%d" % (kind, depth), "sat": True, "lower": low})
+    add("class A { predicate P(real x) { x >= 8.0; } A(real k) { goal g = new this.P(x: k); k <= 3.0; } } real a; A o = new A(a);",
+        {"kind": "ctor", "shape": "class-predicate:constructor:goal-contradicts-body", "sat": False})
     # ---- enums ----
     for decl, size in (('enum E {"a", "b"};', 2), ('enum E {"a", "b", "c"};', 3), ('enum G {"c"}; enum E {"a", "b"} | G;', 3), ('enum G {"c", "d"}; enum H {"e"}; enum E {"a"} | G | H;', 4)):
         for cons in ([], ["x != y;"], ["x == y;"], ["x != y;", "y != z;", "x != z;"]):
@@ -160,6 +185,21 @@ def judge(prog, res):
             chosen = [nm for nm, i in sid.items() if i == d2[0]]
             if not chosen or chosen[0] not in feasible:
                 out.append(("C17:chosen-value-violates-constraints-or-domain:" + tag, "v = %s, allowed: %s (constraints %s)" % (chosen, feasible, cons)))
+        return out or None
+    if kind == "ctor":
+        tag = "ctor:" + m["shape"]
+        if v in ("inconsistent", "unsolvable"):
+            if m["sat"]:
+                out.append(("C17:solvable-object-problem-rejected:" + tag, "reported %s although the program has a solution" % v))
+            return out or None
+        if not m["sat"]:
+            out.append(("C17:unsatisfiable-constructor-body-accepted:" + tag, "reported solved although the constraints executed by the constructor cannot hold"))
+            return out
+        S = Solution(res)
+        if m.get("lower") is not None:
+            a = S.env.get("a")
+            if not (isinstance(a, tuple) and a >= (F(m["lower"]), F(0))):
+                out.append(("C17:rule-of-class-predicate-not-applied:" + tag, "a = %s, but the goal's rule requires a >= %d" % (a and a[0], m["lower"])))
         return out or None
     if v in ("inconsistent", "unsolvable"):
         sat = True
